@@ -203,6 +203,20 @@ Definition build_reply (start : Res scte) (ops : list sig_op) : val :=
    [11]             SetCommandInfo(own CommandInfo())
    A value obtained from a getter is a copy in Gallina: each of these is resolved, against the current state, into the
    ordinary setter call with that value, which is what an implementation without aliasing does. *)
+(* malformed requests, answered with vbad by both executors: a negative integer anywhere in the arguments (every integer
+   argument stands for an unsigned Go value or an index), and, in step 10, the same own descriptor listed twice (Go would
+   put ONE object into two slots, the model copies values) *)
+Fixpoint has_neg (v : val) : bool :=
+  match v with
+  | VI z => (z <? 0)%Z
+  | VB _ => false
+  | VL l => (fix go (l : list val) : bool := match l with [] => false | x :: t => has_neg x || go t end) l
+  end.
+Fixpoint has_dup (l : list Z) : bool :=
+  match l with [] => false | x :: t => existsb (Z.eqb x) t || has_dup t end.
+Definition sel_indices (n : nat) (sels : list val) : list Z :=
+  flat_map (fun v => match v with VI j => if (0 <=? j)%Z && (j <? Z.of_nat n)%Z then [j] else [] | _ => [] end) sels.
+
 Definition pick {A} (own : list A) (v : val) : option (list A) :=
   match v with
   | VI j => Some (if (j <? 0)%Z then [] else match nth_error own (Z.to_nat j) with Some x => [x] | None => [] end)
@@ -230,6 +244,7 @@ Definition ext_step (s : scte) (v : val) : option scte :=
     | None => Some s
     end
   | VL [VI 10%Z; VL sels] =>
+    if has_dup (sel_indices (List.length (s_descs s)) sels) then None else
     do l <- p_list (pick (s_descs s)) sels; Some (with_descs s (map (set_owner (Some (s_id s))) (List.concat l)))
   | VL [VI 11%Z] => Some (with_cmd s (cmd_type (s_cmd s)) (s_cmd s))
   | _ => do o <- p_sigop v; Some (apply_sig_op s o)
@@ -261,24 +276,24 @@ Definition ops : list op := [
   ("scte.reencode", fun a => match a with
      | [VB b] => vres (fun s => let (out, s') := update_data s in VL [VB out; view_scte s']) (new_scte35 b)
      | _ => vbad end);
-  ("scte.build", fun a => match a with
+  ("scte.build", fun a => if existsb has_neg a then vbad else match a with
      | [VL []; VL l] => match p_list p_sigop l with Some ops => build_reply (Ok create_scte35) ops | None => vbad end
      | [VL [VB b]; VL l] => match p_list p_sigop l with Some ops => build_reply (new_scte35 b) ops | None => vbad end
      | _ => vbad end);
-  ("scte.hist", fun a => match a with
+  ("scte.hist", fun a => if existsb has_neg a then vbad else match a with
      | [VL []; VL l] => hist_reply (Ok create_scte35) l
      | [VL [VB b]; VL l] => hist_reply (new_scte35 b) l
      | _ => vbad end);
   (* generator aid (modelexec only): is the state after the script inside the hypotheses of C09_encode_canonical?
      ScteNormalB.isnormal_ok : isnormal st = true -> normal (foreign_of st) st *)
-  ("scte.isnormal", fun a => match a with
+  ("scte.isnormal", fun a => if existsb has_neg a then vbad else match a with
      | [VL []; VL l] => match p_list p_sigop l with Some ops => vbool (isnormal (run_script create_scte35 ops)) | None => vbad end
      | [VL [VB b]; VL l] => match p_list p_sigop l, new_scte35 b with
                             | Some ops, Ok s0 => vbool (isnormal (run_script s0 ops))
                             | Some _, _ => vbool false
                             | None, _ => vbad end
      | _ => vbad end);
-  ("scte.histnormal", fun a => match a with
+  ("scte.histnormal", fun a => if existsb has_neg a then vbad else match a with
      | [VL []; VL l] => match hist_normal create_scte35 l with Some b => vbool b | None => vbad end
      | [VL [VB b]; VL l] => match new_scte35 b with
                             | Ok s0 => match hist_normal s0 l with Some b => vbool b | None => vbad end
